@@ -357,7 +357,7 @@ def submit (s : State) (a : Addr) (dep : Nat) : Option State :=
     let pr : Proposal := { proposer := a, status := if voting then 1 else 0, depEnd := s.now + s.depPeriod,
                            voteEnd := if voting then s.now + s.votePeriod else 0, total := dep }
     some { s with bal := b, nextProp := id + 1, props := put s.props id pr,
-                  deposits := if dep == 0 then s.deposits else put s.deposits (id, a) dep,
+                  deposits := put s.deposits (id, a) dep,   -- a deposit record is written also for an empty initial deposit
                   inactiveQ := if voting then s.inactiveQ else ins s.inactiveQ (pr.depEnd, id),
                   activeQ := if voting then ins s.activeQ (pr.voteEnd, id) else s.activeQ }
 
@@ -522,6 +522,7 @@ inductive Op where
   | deposit (a : Addr) (id amt : Nat)
   | vote (a : Addr) (id : Nat)
   | block (dt : Nat)
+  | setPeriods (dp vp : Nat)
   | migrate (frm to : Addr) (sigOk : Bool)
   deriving Repr
 
@@ -550,6 +551,7 @@ def step (c : Cfg) (s : State) : Op → State × String
   | .deposit a id amt => ofOpt s (deposit s a id amt)
   | .vote a id => ofOpt s (vote s a id)
   | .block dt => (endBlock s dt, "ok")
+  | .setPeriods dp vp => ({ s with depPeriod := dp, votePeriod := vp }, "ok")
   | .migrate frm to sigOk =>
     match migrate c s frm to sigOk with
     | .ok s' => (s', "ok")
